@@ -257,7 +257,12 @@ func lfsDecodeBatchRecords(batch *lfsRecordBatch, decompressor kgo.Decompressor)
 			return nil, codec, err
 		}
 	}
+	// NumRecords comes from the client: a record takes at least one byte, so a
+	// count that is negative or larger than the records section is malformed.
 	numRecords := int(batch.NumRecords)
+	if numRecords < 0 || numRecords > len(rawRecords) {
+		return nil, codec, fmt.Errorf("record batch announces %d records in %d bytes", batch.NumRecords, len(rawRecords))
+	}
 	records := make([]kmsg.Record, numRecords)
 	records = lfsReadRawRecordsInto(records, rawRecords)
 	return records, codec, nil
